@@ -1,7 +1,15 @@
 import IsoMdl.Model.Session
 import IsoMdl.Lemmas.Iv
+import IsoMdl.Lemmas.StateCodec
 namespace IsoMdl.Session
 open IsoMdl IsoMdl.Spec IsoMdl.Generated
+
+/-- stringify → parse gives the object back: the serde layer loses nothing of the state -/
+@[simp] theorem step_restoreDevice (w : World) : w.step .restoreDevice = w := by
+  simp [World.step, StateCodec.devOfCbor_toCbor]
+
+@[simp] theorem step_restoreReader (w : World) : w.step .restoreReader = w := by
+  simp [World.step, StateCodec.rdrOfCbor_toCbor]
 
 theorem gen_iv_fst (c : UInt32) (r : Bool) : (getInitializationVector c r).1 = c + 1 := by
   simp [getInitializationVector]
@@ -230,8 +238,8 @@ theorem LogOk_step (w : World) (op : Op) (h : LogOk w) : LogOk (w.step op) := by
   | retrieve => exact LogOk_of_same w _ rfl rfl (retrieve_encCtr _) h
   | handleResponse m =>
     exact LogOk_of_same w _ rfl (handleResponse_encCtr _ _) rfl h
-  | restoreDevice => exact h
-  | restoreReader => exact h
+  | restoreDevice => rw [step_restoreDevice]; exact h
+  | restoreReader => rw [step_restoreReader]; exact h
 
 theorem LogOk_run (w : World) (ops : List Op) (h : LogOk w) : LogOk (w.run ops) := by
   induction ops generalizing w with
